@@ -12,7 +12,7 @@ Ops (one answer line each):
   `recvfrom s buflen want [null]` · `send s <hex|null> [buflen]` · `sendto s addr <hex|null> [buflen]`
   `close s` · `shutdown s r w` · `setbuf s dir size` · `wait s cond` · `chk s` · `setka s b` · `setblk s b`
   `setbl s n` · `setto s n` · `local s` · `remote s`
-  (addr = `null` or the sockaddr in hex)
+  (addr = `null`, the sockaddr in hex, or `bad:<hex>` = an address object that `p_socket_address_to_native` rejects)
 
 Answer of a call: `r=… e=… d=… a=… iss=… left=… g=… n=… cx=… ns=… sw=…` (see `fmtLine`); the script left
 over after a call is dropped.  After `exhausted` / `mismatch` / `fault` every op answers `dead` until `reset`.
@@ -61,7 +61,9 @@ def parseExtras (r : Res) : List String → Option Res
     else none
 
 def parseAddr (s : String) : Option Addr :=
-  if s = "null" then some .null else (bytesOfHex s).map .native
+  if s = "null" then some .null
+  else if s.startsWith "bad:" then (bytesOfHex (s.drop 4).toString).map fun _ => .bad
+  else (bytesOfHex s).map .native
 
 def parseBool : String → Option Bool
   | "0" => some false | "1" => some true | _ => none
